@@ -6,6 +6,7 @@ import (
 	conf_v1 "github.com/nginx/kubernetes-ingress/pkg/apis/configuration/v1"
 	"github.com/nginxinc/nginx-service-mesh/pkg/spiffe"
 	"github.com/spiffe/go-spiffe/v2/workloadapi"
+	"k8s.io/client-go/tools/cache"
 	"k8s.io/client-go/tools/leaderelection"
 
 	"github.com/nginx/kubernetes-ingress/internal/k8s/secrets"
@@ -69,3 +70,13 @@ func VerifDrainQueue(lbc *LoadBalancerController) {
 func VerifSyncSVIDRotation(lbc *LoadBalancerController, c *workloadapi.X509Context) {
 	lbc.syncSVIDRotation(c)
 }
+
+// --- GlobalConfiguration scenario (its informer is built on a RESTClient the fake clientset lacks)
+
+// VerifGlobalConfigurationHandlers are the production event handlers of the GlobalConfiguration informer.
+func VerifGlobalConfigurationHandlers(lbc *LoadBalancerController) cache.ResourceEventHandlerFuncs {
+	return createGlobalConfigurationHandlers(lbc)
+}
+
+// VerifGlobalConfigurationStore is the informer's store (what syncGlobalConfiguration reads with GetByKey).
+func VerifGlobalConfigurationStore(lbc *LoadBalancerController) cache.Store { return lbc.globalConfigurationLister }
